@@ -181,6 +181,7 @@ func TestVerif_C18(t *testing.T) {
 	c18Seq(r)
 	c18Rdv(r)
 	c18Race(r)
+	c18FinRace(r)
 
 	r.Require("chunks_delivered", 1000)
 	r.Require("eof_after_fin", 200)
@@ -886,3 +887,62 @@ func c18Race(r *verifkit.R) {
 }
 
 var _ = io.EOF
+
+// c18FinRace: the remote FIN is processed (by the frame-feeding goroutine) at the same instant as
+// the local side half-closes or closes. Both calls are released by a spin barrier; the verdict is
+// taken after both returned (quiescent point): FIN + local half-close must leave the stream
+// CLOSED and refusing writes; a closed stream must stay CLOSED.
+func c18FinRace(r *verifkit.R) {
+	trials := r.N(120000, 2000000)
+	r.Cases("finrace", 4, func(ci int, rng *verifkit.Rand) {
+		var local identity.AgentID
+		var remote identity.AgentID
+		rng.Fill(local[:])
+		rng.Fill(remote[:])
+		variant := []string{"fin||closewrite", "fin||close", "fin+data||closewrite", "fin||closewrite-then-fin-again"}[ci%4]
+		bad := 0
+		for i := 0; i < trials/4; i++ {
+			s := stream.NewStream(uint64(i)+1, local, remote, uint64(i))
+			s.Open()
+			var start atomic.Bool
+			var wg sync.WaitGroup
+			wg.Add(2)
+			go func() {
+				defer wg.Done()
+				for !start.Load() {
+				}
+				if variant == "fin+data||closewrite" {
+					s.PushData([]byte("x"))
+				}
+				s.HandleRemoteFinWrite()
+			}()
+			go func() {
+				defer wg.Done()
+				for !start.Load() {
+				}
+				if variant == "fin||close" {
+					s.Close()
+				} else {
+					s.CloseWrite()
+				}
+			}()
+			start.Store(true)
+			wg.Wait()
+			if variant == "fin||closewrite-then-fin-again" {
+				s.HandleRemoteFinWrite() // duplicate FIN must be a no-op
+			}
+			st, cw := s.State(), s.CanWrite()
+			if st != stream.StateClosed || cw {
+				bad++
+				if bad == 1 {
+					r.Violation("finrace:"+variant+":state-not-closed", "finrace", ci,
+						fmt.Sprintf("trial %d: after the remote FIN handler and the local %s both returned the stream is %s with CanWrite=%v (want CLOSED, writes refused)", i, variant, st, cw), nil)
+				}
+			}
+			s.Close()
+		}
+		r.Add("finrace_trials", trials/4)
+		r.Add("state_observations", trials/4)
+		r.Eval("finrace/"+variant, true)
+	})
+}
